@@ -2,6 +2,7 @@ package core
 
 import (
 	"fmt"
+	"go/token"
 	"go/types"
 	"sort"
 	"strings"
@@ -490,6 +491,10 @@ func (e *Effects) analyse(fn *ssa.Function) bool {
 					case "copy":
 						addMod(e.originOf(st, cc.Args[0]), e.site(fn, in, "copy into "+e.m.ValPath(cc.Args[0])))
 					case "append":
+						if clippedSlice(cc.Args[0]) {
+							// append(s[:len(s):len(s)], x): the capacity is the length, so the elements go into a fresh array
+							continue
+						}
 						addMod(e.originOf(st, cc.Args[0]), e.site(fn, in, "append to "+e.m.ValPath(cc.Args[0])+" (may write into its backing array)"))
 					}
 					continue
@@ -956,4 +961,89 @@ func (e *Effects) ModOf(fn *ssa.Function) map[Root][]*WriteSite {
 		sort.Slice(out[r], func(i, j int) bool { return e.m.InstrPos(out[r][i].In) < e.m.InstrPos(out[r][j].In) })
 	}
 	return out
+}
+
+// clippedSlice: v is s[:n:n] - a slice whose capacity is its length, so that appending to it never writes into the
+// array it shares (the idiom `append(path[:len(path):len(path)], x)`).
+func clippedSlice(v ssa.Value) bool {
+	sl, ok := v.(*ssa.Slice)
+	if !ok || sl.High == nil || sl.Max == nil {
+		return false
+	}
+	return samePureValue(sl.High, sl.Max, 0)
+}
+
+// samePureValue: the two SSA values are computed the same way from values that cannot change in between (the same
+// value, the same field of the same struct value, len of the same value, the same constant).
+func samePureValue(a, b ssa.Value, depth int) bool {
+	if a == b {
+		return true
+	}
+	if depth > 4 {
+		return false
+	}
+	switch x := a.(type) {
+	case *ssa.Field:
+		y, ok := b.(*ssa.Field)
+		return ok && x.Field == y.Field && samePureValue(x.X, y.X, depth+1)
+	case *ssa.Call:
+		y, ok := b.(*ssa.Call)
+		if !ok {
+			return false
+		}
+		bx, okX := x.Call.Value.(*ssa.Builtin)
+		by, okY := y.Call.Value.(*ssa.Builtin)
+		return okX && okY && bx.Name() == "len" && by.Name() == "len" && len(x.Call.Args) == 1 && len(y.Call.Args) == 1 &&
+			samePureValue(x.Call.Args[0], y.Call.Args[0], depth+1)
+	case *ssa.Const:
+		y, ok := b.(*ssa.Const)
+		return ok && x.Value != nil && y.Value != nil && x.Value.ExactString() == y.Value.ExactString()
+	case *ssa.UnOp:
+		// two reads of the same field of a local struct that is written once, as a whole (a struct parameter the builder
+		// keeps in a cell because its fields are selected)
+		y, ok := b.(*ssa.UnOp)
+		if !ok || x.Op != token.MUL || y.Op != token.MUL {
+			return false
+		}
+		fx, okX := x.X.(*ssa.FieldAddr)
+		fy, okY := y.X.(*ssa.FieldAddr)
+		if !okX || !okY || fx.Field != fy.Field || fx.X != fy.X {
+			return false
+		}
+		al, isAlloc := fx.X.(*ssa.Alloc)
+		return isAlloc && writtenOnceAsAWhole(al)
+	}
+	return false
+}
+
+// writtenOnceAsAWhole: the local cell receives one store of a whole value and is otherwise only read field by field.
+func writtenOnceAsAWhole(al *ssa.Alloc) bool {
+	if al.Heap || al.Referrers() == nil {
+		return false
+	}
+	stores := 0
+	for _, r := range *al.Referrers() {
+		switch x := r.(type) {
+		case *ssa.Store:
+			if x.Addr != ssa.Value(al) {
+				return false
+			}
+			stores++
+		case *ssa.FieldAddr:
+			if x.Referrers() == nil {
+				continue
+			}
+			for _, r2 := range *x.Referrers() {
+				if ld, isLoad := r2.(*ssa.UnOp); !isLoad || ld.Op != token.MUL {
+					if _, isDbg := r2.(*ssa.DebugRef); !isDbg {
+						return false
+					}
+				}
+			}
+		case *ssa.UnOp, *ssa.DebugRef:
+		default:
+			return false
+		}
+	}
+	return stores == 1
 }
